@@ -531,9 +531,12 @@ def oracle(hist):
         g = None if through is None else W.group[through]
         if st[0] == "fromdict" and created:
             g = W.group[created[0]]
+        # building the TARGET unit of a conversion is a look-up through the target's registry (it may write derived
+        # prefixed rows into that registry's table, which registries made from the same `lut=` dict share by design)
+        g2 = W.group[st[2]] if st[0] == "convert" and st[4] == "obj" and st[2] < len(W.group) else g
         for i in range(n_before):
             now = W.observe(i)
-            if W.group[i] != g and not (i == 0 and edits_default(st, W)):
+            if W.group[i] not in (g, g2) and not (i == 0 and edits_default(st, W)):
                 d = diff(obs[i]["rows"], now["rows"]) + diff(obs[i]["resolves"], now["resolves"])
                 if d or now["usys"] != obs[i]["usys"]:
                     victim = "default" if i == 0 else W.route[i]
